@@ -6,7 +6,7 @@ and closure coercions do not appear.  Rules compare these with a short list of a
 any edit that changes what a small accessor computes changes its normal form, while renaming,
 reformatting, reordering of commutative operands or moving the code does not.
 """
-import re
+import os, re
 from . import shape, panics
 from .panics import _unwrap_var
 
@@ -45,6 +45,10 @@ def clean(e, depth=0):
                     inner = inner[2]
                 if isinstance(inner, tuple) and inner[0] == "call" and (inner[1] or "").endswith("Try>::branch"):
                     return ("call", "propagate", tuple(clean(a2, depth + 1) for a2 in inner[2]), None, None)
+    if k == "call" and len(e[2]) == 1:
+        m = re.search(r"<impl std::convert::From<(bool|char|u8|u16|u32|u64|i8|i16|i32|i64)> for (u8|u16|u32|u64|u128|usize|i8|i16|i32|i64|i128|isize)>::from$", e[1] or "")
+        if m:      # u16::from(x) on primitives is the lossless cast `x as u16`
+            return ("cast", m.group(2), clean(e[2][0], depth + 1), m.group(1), "IntToInt")
     if k == "call" and e[1] in ("std::cmp::min", "core::cmp::min", "std::cmp::max", "core::cmp::max"):
         e = (e[0], "std::cmp::Ord::" + e[1].rsplit("::", 1)[1]) + tuple(e[2:])     # cmp::min(a, b) is Ord::min(a, b)
     if k == "call" and len(e[2]) == 2 and shape.short_callee(e[1]) in OPERATOR_TRAITS and "::ops::" in (str(e[3]) if len(e) > 3 and e[3] else str(e[1])):
@@ -202,6 +206,67 @@ def _reach_avoiding(b, src, dst, kill):
     return False
 
 
+FACTS = None          # set by lib.context.Context when the facts of the tree under analysis are loaded
+_BASELINE = None
+_INLINING = []
+
+
+def _baseline():
+    global _BASELINE
+    if _BASELINE is None:
+        p = os.path.join(os.path.dirname(os.path.dirname(os.path.dirname(os.path.abspath(__file__)))), "spec", "baseline_fns.txt")
+        with open(p) as fh:
+            _BASELINE = set(l.rstrip("\n") for l in fh if l.strip() and not l.startswith("#"))
+    return _BASELINE
+
+
+def _subst_args(e, args):
+    if isinstance(e, tuple):
+        if len(e) == 4 and e[0] == "arg" and isinstance(e[1], int):
+            return args[e[1] - 1] if 0 < e[1] <= len(args) else e
+        return tuple(_subst_args(x, args) for x in e)
+    return e
+
+
+def _has_kind(e, kinds):
+    if isinstance(e, tuple):
+        if e and e[0] in kinds:
+            return True
+        return any(_has_kind(x, kinds) for x in e)
+    return False
+
+
+def _inline_new_helper(callee, args, depth):
+    """'extract function' refactors: a crate function that did not exist at the pinned commit (spec/baseline_fns.txt)
+    and whose body is one unconditional expression of its parameters is replaced by that expression at its call sites.
+    Anything else (several return cases, loops, locals that do not resolve) stays a call by its (unknown) name."""
+    F = FACTS
+    if F is None or not callee or depth <= 0 or "{closure" in callee or callee in _INLINING or len(_INLINING) > 3:
+        return None
+    body = F.bodies.get(callee) if callee in F.bodies else None
+    if body is None or callee in _baseline():
+        return None
+    _INLINING.append(callee)
+    try:
+        xb = XB(body)
+        defs = []
+        for bi, si, s in body.stmts():
+            if s["k"] == "assign" and s["p"]["l"] == 0 and not s["p"]["proj"]:
+                defs.append((bi, xb.expr_of_rvalue(s["rv"], depth - 1, (bi, si))))
+        for bi, t in body.terms("call"):
+            d = t.get("dest")
+            if d and d["l"] == 0 and not d["proj"]:
+                defs.append((bi, xb.expr_of_call(t, depth - 1, None, (bi, "term"))))
+        if len(defs) != 1 or panics.dominating_conditions(body, defs[0][0]):
+            return None
+        e = defs[0][1]
+        if _has_kind(e, ("phi", "local", "other")):
+            return None
+        return _subst_args(e, args)
+    finally:
+        _INLINING.pop()
+
+
 class XB:
     """a view of a mir.Body whose expression trees are built relative to a program position"""
 
@@ -239,6 +304,9 @@ class XB:
         else:
             callee = raw = None
         args = tuple(self.expr_of_operand(a, depth, at) for a in t.get("args", []))
+        sub = _inline_new_helper(callee, args, depth)
+        if sub is not None:
+            return sub
         return ("call", callee, args, raw, dty)
 
     def expr_of_local(self, l, depth=12, at=None):
@@ -451,11 +519,45 @@ def anon_locals(s):
     return re.sub(r"local\d+", "local", s)
 
 
+def _split_top(s):
+    """split `a, b(c, d), e` at top-level commas"""
+    out, depth, cur = [], 0, []
+    for ch in s:
+        if ch in "([{":
+            depth += 1
+        elif ch in ")]}":
+            depth -= 1
+        if ch == "," and depth == 0:
+            out.append("".join(cur).strip())
+            cur = []
+        else:
+            cur.append(ch)
+    out.append("".join(cur).strip())
+    return out
+
+
+def canon_option_map(s):
+    """`Option::map(X, λ[E(arg2)]())` (capture-free closure) is the same function as `let v = X?; Some(E(v))`:
+    both spellings are rendered as the latter"""
+    pre = "Option::map("
+    if not (s.startswith(pre) and s.endswith(")")) or " ; " in s:
+        return s
+    parts = _split_top(s[len(pre):-1])
+    if len(parts) != 2 or not (parts[1].startswith("λ[") and parts[1].endswith("]()")):
+        return s
+    x, body = parts[0], parts[1][2:-3]
+    if " => " in body or "arg1" in body:
+        return s
+    val = re.sub(r"\barg2\b", lambda m: "try(%s)" % x, body)
+    return "[fail(%s)] => propagate(%s) ; [ok(%s)] => Option::Some(%s)" % (x, x, x, val)
+
+
 def expect_deep(ck, F, rule, key, path, accepted, what, file="src/asm.rs", abbr=(), norm=None):
     b = F.bodies.get(path)
     if not ck.anchor(rule, path, b):
         return False
-    got = deep(F, path)
+    got = canon_option_map(deep(F, path))
+    accepted = [canon_option_map(a) for a in accepted]
     for a, r in abbr:
         got = got.replace(a, r)
     if norm is not None:
